@@ -521,7 +521,8 @@ def run_C04(ctx, R):
     from .rules import bnd as _bnd
     _per_config(ctx, R, _bnd.bnd4_all)          # a number whose text does not fit the scratch array is not printed at all
     from .rules import parse as _parse5
-    _per_config(ctx, R, _parse5.num5)          # what is printed with 17 digits reads back as the same double only through a correctly rounding conversion
+    _per_config(ctx, R, _parse5.num5)
+    _per_config(ctx, R, _parse5.num6)          # every finite double is printed as a literal that has to parse again          # what is printed with 17 digits reads back as the same double only through a correctly rounding conversion
 
 
 def run_C05(ctx, R):
@@ -560,6 +561,7 @@ def run_C02(ctx, R):
     _per_config(ctx, R, _parse.num2)
     _per_config(ctx, R, _parse.num3)
     _per_config(ctx, R, _parse.num5)
+    _per_config(ctx, R, _parse.num6)
 
 
 def run_C03(ctx, R):
